@@ -43,6 +43,11 @@ def handle : List String → String
       (match d with
        | none => "unsupported"
        | some d =>
+         -- percent-escapes that are not UTF-8 (CPython substitutes U+FFFD) are outside the model
+         let undec := (comparePath rq).isNone || (match d with
+           | some dd => (match dget dd "uri" with | some u => (Query.unquote u).isNone | none => false)
+           | none => false)
+         if undec then "unsupported" else
          match gate toy toy app rq realm requser d with
          | .run u => "run " ++ strEncode u
          | .unauthorized true => "401 stale"
